@@ -306,6 +306,7 @@ class PauliPolynomial(PauliList):
         return (1/other) * self
 
     def __add__(self, other):
+        other = other.as_polynomial() # accept Pauli and PauliList summands as pyclifford does
         gs = torch.cat((self.gs, other.gs), dim=0)
         ps = torch.cat((self.ps, other.ps))
         cs = torch.cat((self.cs, other.cs))
